@@ -159,6 +159,15 @@ theorem orPanic_eq_panic {ε : Type} (o : Option Bytes) :
     (orPanic o : Res ε) = .panic ↔ o = none := by
   cases o <;> simp [orPanic]
 
+theorem orInvalid_eq_ok (o : Option Bytes) (c : Bytes) : orInvalid o = .ok c ↔ o = some c := by
+  cases o <;> simp [orInvalid]
+
+theorem orInvalid_ne_panic (o : Option Bytes) : orInvalid o ≠ .panic := by
+  cases o <;> simp [orInvalid]
+
+theorem orInvalid_eq_err (o : Option Bytes) (e : Err) : orInvalid o = .err e ↔ o = none ∧ e = .invalidInput := by
+  cases o <;> simp [orInvalid, eq_comm]
+
 theorem orPanic_ne_err {ε : Type} (o : Option Bytes) (e : ε) : (orPanic o : Res ε) ≠ .err e := by
   cases o <;> simp [orPanic]
 
